@@ -77,6 +77,10 @@ pub enum Op {
     MapGet { map: S, name: String, out: S },
     GetAttrNode { el: S, name: String, out: S },
     ByTag { node: S, name: String, out: S },
+    /// keep the live list that get_elements_by_tag_name returns
+    TagList { node: S, name: String, out: S },
+    /// read a held live list now: length(), every item(i), iter()
+    TagListRead { list: S, out: S },
     Touch { node: S },
     DocRoot { doc: usize, out: S },
     Drop { slot: S },
@@ -233,6 +237,8 @@ impl Step {
             Op::MapGet { map, name, out } => W::new(t, "map_get").n("map", *map).t("name", name).n("out", *out),
             Op::GetAttrNode { el, name, out } => W::new(t, "get_attr_node").n("el", *el).t("name", name).n("out", *out),
             Op::ByTag { node, name, out } => W::new(t, "by_tag").n("node", *node).t("name", name).n("out", *out),
+            Op::TagList { node, name, out } => W::new(t, "tag_list").n("node", *node).t("name", name).n("out", *out),
+            Op::TagListRead { list, out } => W::new(t, "tag_list_read").n("list", *list).n("out", *out),
             Op::Touch { node } => W::new(t, "touch").n("node", *node),
             Op::DocRoot { doc, out } => W::new(t, "doc_root").n("doc", *doc).n("out", *out),
             Op::Drop { slot } => W::new(t, "drop").n("slot", *slot),
@@ -306,6 +312,8 @@ impl Step {
             "map_get" => Op::MapGet { map: n("map")?, name: t("name")?, out: n("out")? },
             "get_attr_node" => Op::GetAttrNode { el: n("el")?, name: t("name")?, out: n("out")? },
             "by_tag" => Op::ByTag { node: n("node")?, name: t("name")?, out: n("out")? },
+            "tag_list" => Op::TagList { node: n("node")?, name: t("name")?, out: n("out")? },
+            "tag_list_read" => Op::TagListRead { list: n("list")?, out: n("out")? },
             "touch" => Op::Touch { node: n("node")? },
             "doc_root" => Op::DocRoot { doc: n("doc")?, out: n("out")? },
             "drop" => Op::Drop { slot: n("slot")? },
@@ -379,6 +387,8 @@ impl Step {
             Op::MapGet { .. } => "map_get",
             Op::GetAttrNode { .. } => "get_attr_node",
             Op::ByTag { .. } => "by_tag",
+            Op::TagList { .. } => "tag_list",
+            Op::TagListRead { .. } => "tag_list_read",
             Op::Touch { .. } => "touch",
             Op::DocRoot { .. } => "doc_root",
             Op::Drop { .. } => "drop",
